@@ -122,6 +122,46 @@ pub fn check_truncated_shape(valid: &[u8], cut: usize) -> Check {
     Ok(())
 }
 
+/// Shape clause for a truncated record payload: a message stream cut short is reported as an error or as a
+/// shorter message list than the whole payload gives -- never as the complete data. `stream` is a well-formed
+/// contiguous message stream; the payload is looked at plain (Record::new / from_slice) and as the decompressed
+/// content of a real-time chunk.
+pub fn check_truncated_payload(stream: &[u8], cut: usize, through_chunk: bool) -> Check {
+    let full = match observe("Record::messages", stream.len(), || Record::new(stream.to_vec()).messages().map(|m| m.len()))? {
+        Ok(n) => n,
+        Err(e) => return Err(Fail::new("shape:whole-payload-rejected", format!("a well-formed {}-byte message stream was rejected: {}", stream.len(), e))),
+    };
+    let t = &stream[..cut];
+    let mut views: Vec<(&str, Record)> = vec![("Record::new", Record::new(t.to_vec())), ("Record::from_slice", Record::from_slice(t))];
+    let owned;
+    if through_chunk {
+        let wire = encode_record(&bzip2_compress(t, 9), false);
+        if let Ok(Chunk::IntermediateOrEnd(r)) = observe("Chunk::new", wire.len(), || Chunk::new(wire.clone()))? {
+            if let Ok(d) = observe("Chunk::decompress", wire.len(), || r.decompress())? {
+                owned = d;
+                ensure!(owned.data() == t, "shape:chunk-payload-differs", "the chunk's decompressed payload is not the {} bytes that were compressed", cut);
+                views.push(("Chunk::IntermediateOrEnd::decompress", Record::new(owned.data().to_vec())));
+            }
+        }
+    }
+    for (what, rec) in &views {
+        match observe(&format!("{}::messages", what), cut, || rec.messages().map(|m| m.len()))? {
+            Err(_) => {}
+            Ok(n) => ensure!(
+                n < full,
+                "shape:truncated-payload-reported-complete",
+                "{}: a payload cut at {} of {} bytes decoded to {} messages, the whole payload has {}",
+                what,
+                cut,
+                stream.len(),
+                n,
+                full
+            ),
+        }
+    }
+    Ok(())
+}
+
 #[derive(Clone, Debug, Serialize, Deserialize)]
 pub enum Base {
     Volume(Box<VolumeCase>),
@@ -454,7 +494,19 @@ pub fn run(ctx: &Ctx, rep: &mut Report) {
                 }
             }
         }
-        rep.enumerated("every-truncation-point", "every truncation point of seeded valid volumes (<= 8 KiB) and intermediate chunks; for volumes additionally the prefix-consistent shorter-list shape", n, n, true);
+        // (b2) every truncation point of the *payload* of a record: error or shorter message list, never the full list
+        for i in 0..count {
+            let msgs = crate::runner::draw(&vec(gen::msg(opts), 1..=3), ctx.seed, "c06-trunc-payload", i);
+            let (stream, _) = encode_stream(&msgs);
+            for cut in 0..stream.len() {
+                n += 1;
+                if let Err(f) = check_truncated_payload(&stream, cut, cut % 89 == (i % 89)) {
+                    rep.record_failure("truncated-payload", f, json!({"stream": stream, "cut": cut}));
+                    break;
+                }
+            }
+        }
+        rep.enumerated("every-truncation-point", "every truncation point of seeded valid volumes (<= 8 KiB) and intermediate chunks; for volumes additionally the prefix-consistent shorter-list shape; every truncation point of the payload (1..3 messages of any type) of a plain record and, sampled, of a chunk's decompressed record: error or a shorter message list than the whole payload", n, n, true);
         rep.sample("every-truncation-point", json!({"kind": "volume", "cut": 27}));
     }
 
@@ -518,6 +570,11 @@ pub fn replay(sub: &str, case: &Value) -> Check {
         "bytes" | "every-length-0-64" | "every-truncation-point" | "fuzz" | "nontermination" => {
             let b: Vec<u8> = from_case(case.get("bytes").unwrap_or(case))?;
             check_bytes(&b)
+        }
+        "truncated-payload" => {
+            let stream: Vec<u8> = from_case(case.get("stream").ok_or_else(|| Fail::new("replay-format", "no stream".to_string()))?)?;
+            let cut = case.get("cut").and_then(|v| v.as_u64()).unwrap_or(0) as usize;
+            check_truncated_payload(&stream, cut.min(stream.len()), true)
         }
         other => return super::unknown_sub(other),
     };
